@@ -1,0 +1,9 @@
+//go:build !verif
+// +build !verif
+
+package gofakes3
+
+// Trace hook of the multipart uploader; compiled in with the build tag
+// "verif" only (see verif_trace.go).
+func (u *uploader) traceUploads(op, bucket, object, id string, partNumber int, input *CompleteMultipartUploadRequest) {
+}
